@@ -617,7 +617,38 @@ theorem any_stage_terminates_counterexample : ¬ any_stage_terminates_full := by
   obtain ⟨S', hr', hF⟩ := hfull [returnsWithoutDraining] [e, b] (fun _ => []) _ (by decide) (HRun.step st1 (HRun.refl _))
   exact (undrained_stage_never_terminates _ S' hU hr').2 hF
 
+/-- **stage_schedule_sound.** What the compiled model answers in the `stagedrain` correspondence stream (`c12sdrain`:
+    fake upstream → the real aggregator stage over `GenericPlanner.WrapProcess` → a consumer that reads to the end) is a
+    statement about the transition system: the state the schedule ends in is reachable; verdict `final` ⇒ every goroutine
+    has returned; verdict `blocked` ⇒ the state is `Undrained`, so no continuation reaches the final state. -/
+theorem stage_schedule_sound (k fuel : Nat) (S : HSys) :
+    HRun S (hsched k fuel S 0).1 ∧
+    (verdictS (hsched k fuel S 0).1 = "final" → HFinal (hsched k fuel S 0).1) ∧
+    (verdictS (hsched k fuel S 0).1 = "blocked" → ∀ S', HRun (hsched k fuel S 0).1 S' → ¬ HFinal S') := by
+  refine ⟨hsched_run k fuel S 0, ?_, ?_⟩
+  · intro hv
+    apply hfinalB_sound
+    unfold verdictS at hv
+    split at hv
+    · assumption
+    · split at hv <;> simp at hv
+  · intro hv S' hr
+    have hb : undrainedB (hsched k fuel S 0).1 = true := by
+      unfold verdictS at hv
+      split at hv
+      · simp at hv
+      · split at hv
+        · assumption
+        · simp at hv
+    exact (undrained_stage_never_terminates _ S' (undrainedB_sound _ hb) hr).2
+
 example : drainsOf [returnsWithoutDraining] 0 = false ∧ drainsOf [recoversWithoutDrain] 0 = false := by decide
+-- the regenerated WrapProcess loop: every schedule of the stream ends with everything returned; a stage without drainer blocks
+example : stageRun wrapProcessCode [false, true, false, false] = "final" := by decide +kernel
+example : stageRun returnsWithoutDraining [false, true, false, false] = "blocked" := by decide +kernel
+-- (an error in the LAST batch blocks nobody; the model's `Final` also asks that somebody has seen the input closed: "open")
+example : stageRun returnsWithoutDraining [false, false, true] = "open" := by decide +kernel
+example : wrapProcessCode.keepsConsumed = true := by decide +kernel
 example : returnsWithoutDraining ∉ liveStages ∧ recoversWithoutDrain ∉ liveStages := by decide +kernel
 
 /-- **abandoned_exporter_never_returns.** The counter-pattern in general: once the handler has left its loop, its
